@@ -1,7 +1,9 @@
 (* C15 - error locations identify the failing card and its call chain.
    Statements only. Compile-time half (which location the compiler records, and that it resolves through
-   Module::get_card): proofs in Cao.CompilerTrace. Run-time half (which trace the VM reports): proofs in
-   Cao.C15Proofs, over the VM model Cao.Vm. *)
+   Module::get_card): proofs in Cao.CompilerTrace (some card of the function), Cao.CompilerOwner /
+   CompilerOwnerProg (the very card that emitted the instruction; CallFunction = Call / DynamicCall card) and
+   Cao.C15Resolve (the module tree; the assembled theorem C15_error_trace_resolves at the end of this file).
+   Run-time half (which trace the VM reports): proofs in Cao.C15Proofs, over the VM model Cao.Vm. *)
 From Coq Require Import List NArith ZArith.
 From Cao Require Import ListUtil Bits CardAst Bytecode Compiler Wellformed CompilerProofs CompilerTrace.
 From Cao Require CardEdit Vm C15Link C15Proofs C15Check CompilerOwner CompilerOwnerProg C15Resolve C15Examples.
@@ -138,9 +140,9 @@ Print Assumptions C15_reported_head_is_compiler_entry.
 
 (* ... and if that entry was recorded while the cards of function number [cs_fn s0] were compiled
    (C15_emit_index_sound), trace[0] carries the namespace of that function and resolves, through
-   Module::get_card, to a card of it. What is NOT proved: that every entry of `compile m` stems from the
-   process_cards run of the function that (namespace, function index) designate in m, or is one of the two
-   function-level forms - C15Check.trace_resolves_of checks exactly this on every generated case (code 1). *)
+   Module::get_card, to a card of it. (Kept as the per-function statement; the statement for `compile m` and the
+   module tree, with the emitting card instead of "a card", is C15_compile_trace_resolves /
+   C15_error_trace_resolves below.) *)
 Theorem C15_error_head_resolves :
   forall (cards : list card) (s0 s1 : cstate) (B : compiled) (a : N) (ns : list str) (idx : card_index)
          (vs : Vm.state),
